@@ -108,7 +108,7 @@ func main() {
 	if *which == "convert" || *which == "all" {
 		// S-NSSAI
 		for sst := 0; sst < 256; sst++ {
-			for _, sd := range []string{"", "000000", "ffffff", "010203", hex.EncodeToString(ev.Bytes(r, 3))} {
+			for _, sd := range []string{"", "000000", "ffffff", "010203", hex.EncodeToString(ev.Bytes(r, 3)), "ABCDEF", "7fffff", "800000", "80" + hex.EncodeToString(ev.Bytes(r, 2))} {
 				var o []byte
 				p := ev.Catch(func() { o = nasConvert.SnssaiToNas(models.Snssai{Sst: int32(sst), Sd: sd}) })
 				sdb, _ := hex.DecodeString(sd)
@@ -150,6 +150,14 @@ func main() {
 				v6 = net.ParseIP("::1")
 			case 3:
 				v6 = net.ParseIP("2001:db8::ff00:42:8329")
+			case 4:
+				v6 = net.ParseIP("::")
+			case 5:
+				// all-ones, and an IPv4-mapped IPv6 address (still 128 bits on the wire; Go prints it in dotted form)
+				v6 = net.IP{255, 255, 255, 255, 255, 255, 255, 255, 255, 255, 255, 255, 255, 255, 255, 255}
+				if i%12 == 5 {
+					v6 = net.ParseIP("::ffff:" + v4.String()).To16()
+				}
 			}
 			for mode := 0; mode < 3; mode++ {
 				s4, s6 := v4.String(), v6.String()
